@@ -22,6 +22,7 @@ Proof.
   set (Ea := Z.shiftr bits 23 mod 256) in *. set (Ma := bits mod 8388608) in *.
   set (Eb := Z.shiftr bits 52 mod 2048) in *. set (Mb := bits mod 4503599627370496) in *.
   set (Ec := Z.shiftr bits 64 mod 32768) in *. set (Mc := bits mod 18446744073709551616) in *.
+  clearbody Ea Ma Eb Mb Ec Mc.
   destruct src; cbv zeta;
     repeat match goal with |- context [Z.odd ?z] => generalize (Z.odd z); intro end;
     intros H.
@@ -83,9 +84,9 @@ Theorem fconv_rounds_or_refuses src bits t tc hd :
 Proof.
   intros S T F.
   destruct (fconv_target src bits t tc hd S T F) as [A W].
-  destruct (fdecode src bits) as [|sg|neg m e] eqn:D; cbn [fround is_inf] in *.
-  - destruct A as [A|(_ & _ & A)]; [exact A|discriminate A].
-  - destruct A as [A|(_ & _ & A)]; [exact A|discriminate A].
+  destruct (fdecode src bits) as [|sg|neg m e] eqn:D.
+  - cbn [fround is_inf] in A. destruct A as [A|(_ & A & _)]; [exact A|discriminate A].
+  - cbn [fround is_inf] in A. destruct A as [A|(_ & _ & A)]; [exact A|discriminate A].
   - pose proof (fdecode_fin src bits neg m e D) as (M & E).
     destruct (fround_is_rne tc neg m e ltac:(lia)) as [LE GT]. cbv zeta in LE, GT.
     set (y := rne_to tc (dyR neg m e)) in *. cbv zeta.
@@ -214,7 +215,7 @@ Proof.
   intros S T F OK.
   destruct (fconv_target src bits t tc true S T F) as [A _].
   pose proof (fconv_rounds_or_refuses src bits t tc true S T F) as RR.
-  destruct (fdecode src bits) as [|sg|neg m e] eqn:D; cbn [fround is_inf] in *.
+  destruct (fdecode src bits) as [|sg|neg m e] eqn:D.
   - rewrite RR in OK. unfold accepted_as in OK. inversion OK; subst. auto.
   - rewrite RR in OK. unfold accepted_as in OK. inversion OK; subst.
     split; [reflexivity|]. split; [reflexivity|]. apply finf_roundtrip, F.
